@@ -22,7 +22,8 @@ EXPLANATION = (
     "of `checksum` over the four hops writer -> append_data -> manifest writer -> manifest reader."
     ' Also: census - every DataFile built in the package carries a checksum, carried-over files are not re-built field by field, every reaching definition of the recorded checksum is a computed digest and a failing read-back fails the append.'
     ' Also in R2: handlers of streaming (generator) helpers of the parsers may not end the stream quietly; in R4: every call of the verifying readers receives the RESOLVED verify flag (argument -> environment -> default ON), also through helpers and closures.'
-    ' (R6) who may turn a data file into rows: every Parquet read lies in the two verifying readers or a reasoned list.')
+    ' (R6) who may turn a data file into rows: every Parquet read lies in the two verifying readers or a reasoned list.'
+    ' (R7) the manifest parsers drop no entry; (R8) the checksum functions hash every byte and the verify functions return computed == expected.')
 NOT_DECIDED = ("damage classes that still parse (Avro cut at a block boundary, a sibling file that is valid JSON); "
                "pyarrow's behaviour on corrupt pages when verification is off")
 
